@@ -119,6 +119,26 @@ def catalogue():
                 else:
                     text = hdr + "struct Foo:\n  0 [+1]  UInt  x\n  let v = x + 1\n    " + line + "\n"
                 c.append(("attribute-placement:%s%s-on-%s" % ("$default-" if dflt else "", attr, ctx), text, (attr, dflt) in DOCUMENTED[ctx]))
+    # values of the wrong kind at a documented place: rejected with an error (and never an exception: D19 / D20)
+    PLACE = {"byte_order": "physical-field", "fixed_size_in_bits": "struct", "requires": "struct", "maximum_bits": "enum", "is_signed": "enum", "addressable_unit_size": "external",
+             "is_integer": "external", "static_requirements": "external", "text_output": "physical-field", "expected_back_ends": "module"}
+    WRONG = {"byte_order": ["8", "true", "x"], "fixed_size_in_bits": ["true", '"8"'], "requires": ['"x"', "8", '"BigEndian"'], "maximum_bits": ["true", '"8"'], "is_signed": ["8", '"true"', "-1"],
+             "addressable_unit_size": ["true", '"8"'], "is_integer": ["1", '"true"'], "static_requirements": ['"x"', "8"], "text_output": ["8", "true"], "expected_back_ends": ["1", "true", "-1"]}
+    for attr in sorted(WRONG):
+        for i, val in enumerate(WRONG[attr]):
+            ctx = PLACE[attr]
+            line = "[%s: %s]" % (attr, val)
+            if ctx == "module":
+                text = HDR + line + "\nstruct Foo:\n  0 [+1]  UInt  x\n"
+            elif ctx == "struct":
+                text = HDR + "struct Foo:\n  " + line + "\n  0 [+1]  UInt  x\n"
+            elif ctx == "enum":
+                text = HDR + "enum Ee:\n  " + line + "\n  AA = 1\n"
+            elif ctx == "external":
+                text = HDR + "external Xx:\n  " + line + "\n" + ("" if attr == "addressable_unit_size" else "  [addressable_unit_size: 8]\n")
+            else:
+                text = HDR + "struct Foo:\n  0 [+2]  UInt  x\n    " + line + "\n"
+            c.append(("attribute-value-of-the-wrong-kind:%s=%s" % (attr, val.strip('"')), text, False))
     # attributes
     add("unknown-attribute", "struct Foo:\n  [bogus: 1]\n  0 [+1]  UInt  x\n", False)
     add("duplicate-attribute", 'struct Foo:\n  0 [+2]  UInt  x\n    [byte_order: "BigEndian"]\n    [byte_order: "BigEndian"]\n', False)
@@ -207,6 +227,7 @@ def main(args):
     run.function("compiler.front_end.attribute_checker.{_add_addressable_unit_to_external,_verify_addressable_unit_attribute_on_external,_verify_requires_attribute_on_field}",
                  "pyvc: external unit BIT iff the (symbolic) attribute is 1, BYTE iff 8, one error iff missing or another value; [requires] rejected on array fields (error + note) and on fields whose expression type is not integer / enumeration / boolean (contracts/attrs.py)")
     run.function("compiler.util.attribute_util.{_is_constant_boolean,_is_boolean,_is_constant_integer,_is_string}", "pyvc: one error at the value, naming the attribute, iff the value is not of the checker's kind (contracts/attrs.py)")
+    run.function("compiler.front_end.attribute_checker._valid_back_ends", "pyvc: comma-delimited lists of lower-case specifiers accepted, any other string one error at the value, a non-string value the string-type error (no exception) (contracts/attrs.py)")
     run.function("compiler.util.attribute_util._check_attributes", "pyvc: for every list of <= 3 attributes over {a, $default a, b, (cpp) a} x back end x allowed set: other back ends ignored, one Duplicate error (with note) per repeated "
                  "(name, is_default), one Unknown / may-not-be-defaulted error per pair the context does not allow, otherwise exactly the value checker's errors, in list order (contracts/attrs.py)")
     run.function("compiler.util.ir_util.fixed_size_of_type_in_bits", "pyvc: base size times the product of the (constant) dimensions for 0-2 dimensions with symbolic counts and sizes; None as soon as a dimension is omitted or not constant or the base has no fixed size")
